@@ -72,6 +72,18 @@ def _install_probes():
         return out
 
     cmc.CouplingSimulation.coupling_states_for_a_slice = coupling_states_for_a_slice
+
+    # the coarse increment chosen for EACH fine jump (the slice function above only cumulates them)
+    orig_state = cmc.CouplingSimulation.coupling_state
+
+    def coupling_state(self, increment):
+        out = orig_state(self, increment)
+        wd = rngseam.ACTIVE
+        if wd is not None and getattr(wd, "c15", None) is not None:
+            wd.c15.setdefault("coarse_jumps", []).append(float(out))
+        return out
+
+    cmc.CouplingSimulation.coupling_state = coupling_state
     _installed = True
 
 
@@ -296,6 +308,7 @@ def execute(wd, sc):
     for p in range(npaths):
         phase.update(name="path", poisson_idx=0, path=p)
         d0, c0, k0, s0 = len(wd.draws), len(wd.c15["chain"]), len(wd.c15["coarse"]), len(sizes)
+        j0 = len(wd.c15.get("coarse_jumps", []))
         try:
             path = process.simulate_one_path_with_coupling() if coupled else process.simulate_one_path()
         except HarnessError:
@@ -342,7 +355,20 @@ def execute(wd, sc):
             origin = grid.origin_coordinate.value
             axis = np.asarray(grid.axes[0], dtype=float)
             per_interval = [[float(axis[origin + i]) for i in s] for s in incs]
-            coarse_slices = wd.c15["coarse"][k0:] if coupled else None
+            coarse_slices = None
+            if coupled:
+                # running sums of the per-jump coarse increments, interval by interval (independent of the library's own
+                # accumulation in coupling_states_for_a_slice)
+                cj = wd.c15.get("coarse_jumps", [])[j0:]
+                if len(cj) != sum(nbs):
+                    add(f"C15.counts|number of coupled coarse increments differs from the number of fine jumps|{cls}",
+                        {"path": p, "coarse_increments": len(cj), "fine_jumps": int(sum(nbs))})
+                    continue
+                coarse_slices, pos_ = [], 0
+                for n_ in nbs:
+                    if n_ > 0:
+                        coarse_slices.append(np.cumsum(cj[pos_:pos_ + n_]).tolist())
+                        pos_ += n_
         # ---- structural clauses -------------------------------------------------------------------------
         fine_j = jumps[0] if coupled else jumps
         fine_d = diff[0] if coupled else diff
